@@ -569,6 +569,10 @@ func c05Round5(s *source, e *emitter) {
 	e.c05Forward(s, "core/threading/workergroup.go", "WorkerGroup.Start", "group.RunSafe", "workerGroupFwd")
 	e.c05Forward(s, "rest/handler/maxconnshandler.go", "MaxConnsHandler", "syncx.NewLimit", "maxConnsNewLimitFwd")
 	e.c05Forward(s, "core/fx/stream.go", "Stream.Walk", "s.walkLimited", "fxWalkLimitedFwd")
+	e.c05Forward(s, "core/fx/stream.go", "Stream.Walk", "buildOptions", "fxWalkFwd")
+	e.c05Forward(s, "core/fx/stream.go", "Stream.Map", "s.Walk", "fxMapFwd")
+	e.c05Forward(s, "core/fx/stream.go", "Stream.Filter", "s.Walk", "fxFilterFwd")
+	e.c05Forward(s, "core/fx/stream.go", "Stream.Parallel", "s.Walk", "fxParallelFwd")
 	e.printf("/-- the property-relevant effect kinds (extracted order-of-effects lists are lists of these) -/\n" +
 		"inductive Eff where\n  | acquire | tryAcquire | release | tryRelease | wgAdd | wgDone | wgWait | user\n  deriving Repr, DecidableEq\n\n")
 	lim := c05EffCfg{chans: []string{"l.pool"}}
